@@ -5,6 +5,9 @@ package main
 
 import (
 	"fmt"
+	"go/ast"
+	"go/parser"
+	"go/token"
 	"go/types"
 	"sort"
 	"strings"
@@ -75,7 +78,7 @@ func loopBody(h *ssa.BasicBlock) map[*ssa.BasicBlock]bool {
 
 // env builds the evaluation environment for contract expressions at a point inside the function
 func (v *verifyCtx) env(x *Exec, st *State, fr *Frame) *CEnv {
-	e := &CEnv{x: x, pre: v.pre, post: st, pkg: v.c.Pkg, bound: map[string]TV{}, fn: v.fn}
+	e := &CEnv{x: x, pre: v.pre, post: st, pkg: v.c.Pkg, bound: map[string]TV{}, fn: v.fn, frame: fr}
 	e.names = func(name string, old bool) (Value, types.Type, bool) {
 		if old {
 			for i, p := range v.fn.Params {
@@ -163,6 +166,20 @@ func (v *verifyCtx) enterLoop(x *Exec, st *State, fr *Frame, b *ssa.BasicBlock, 
 	for _, p := range mods {
 		cur := x.load(st, p)
 		x.storeRaw(st, p, x.havocLike(st, cur, p.Obj.Name))
+	}
+	// the ghost visited set of a map range driven by this loop is loop-carried state too
+	for blk := range v.bodies[b] {
+		for _, ins := range blk.Instrs {
+			if nx, ok := ins.(*ssa.Next); ok {
+				if rv, has := fr.get(nx.Iter); has {
+					if r, isR := rv.(RangeV); isR && r.Obj != nil {
+						if cur, okc := st.Heap[r.Obj.ID].(Scalar); okc {
+							st.Heap[r.Obj.ID] = Scalar{x.freshVar("visited", cur.T.S)}
+						}
+					}
+				}
+			}
+		}
 	}
 	for k := 0; k < skipPhis(b); k++ {
 		phi := b.Instrs[k].(*ssa.Phi)
@@ -750,6 +767,11 @@ func (x *Exec) applyContract(st *State, fn *ssa.Function, c *FnContract, args []
 		rets = append(rets, x.sym(normal, rs.At(i).Type(), name+"_ret"))
 	}
 	pe := cx.postEnv(x, normal, rets, nil)
+	// definitional alias clauses: `aliases(L, R)` in a postcondition binds the slice L of the fresh result to R
+	// (a fresh symbolic result can never satisfy an aliasing fact, so assuming it would be vacuous)
+	for _, en := range c.Ensures {
+		x.bindAliases(pe, normal, en)
+	}
 	for _, en := range c.Ensures {
 		f := x.bindLambdas(normal, pe.Formula(en), havoc)
 		normal.Assume = append(normal.Assume, Implies(normal.Branch(), f))
@@ -916,3 +938,49 @@ func mentions(t, v *Term) bool {
 }
 
 func pc0(st *State) *Term { return st.PC() }
+
+func (x *Exec) bindAliases(pe *CEnv, st *State, en string) {
+	ex, err := parser.ParseExpr(rewriteImplies(en))
+	if err != nil {
+		return
+	}
+	var walk func(e ast.Expr)
+	walk = func(e ast.Expr) {
+		switch n := e.(type) {
+		case *ast.ParenExpr:
+			walk(n.X)
+		case *ast.BinaryExpr:
+			if n.Op == token.LAND {
+				walk(n.X)
+				walk(n.Y)
+			}
+		case *ast.CallExpr:
+			if id, ok := n.Fun.(*ast.Ident); ok && id.Name == "aliases" && len(n.Args) == 2 {
+				sel, isSel := n.Args[0].(*ast.SelectorExpr)
+				if !isSel {
+					return
+				}
+				rhs := pe.eval(n.Args[1])
+				rv, isSlice := rhs.V.(SliceV)
+				if !isSlice {
+					return
+				}
+				base := pe.eval(sel.X)
+				p, isPtr := base.V.(Ptr)
+				if !isPtr || p.Obj == nil {
+					return
+				}
+				fi, _ := findField(base.T, sel.Sel.Name)
+				if fi == nil {
+					return
+				}
+				np := Ptr{Obj: p.Obj, Path: append([]PathElem(nil), p.Path...)}
+				for _, k := range fi {
+					np.Path = append(np.Path, PathElem{Field: k})
+				}
+				x.storeRaw(st, np, rv)
+			}
+		}
+	}
+	walk(ex)
+}
